@@ -1,0 +1,14 @@
+//go:build verif
+
+package oid
+
+// Contracts for gvc (contract-based deductive verification, see /verif/DESIGN.md).
+// Comment-only file, compiled only under the build tag "verif".
+
+// OidBytes re-encodes an object identifier with encoding/asn1 (outside the modelled subset). It panics for identifiers
+// asn1.Marshal rejects (fewer than two arcs, first arc above 2): every caller passes an identifier that came out of
+// asn1.Unmarshal or one of this package's constants, for which Marshal cannot fail. Trusted.
+//@ func OidBytes
+//@   trusted
+//@   ensures fresh(result) && len(result) <= 10 * len(oid) + 8
+//@   assigns nothing
